@@ -319,11 +319,13 @@ def k_parameters(f, rng):
     return e
 
 
-@kind("character-xml-forbids-in-text", 3)
+@kind("character-xml-forbids-in-text", 8)
 def k_forbidden_char(f, rng):
     """A character that XML 1.0 forbids (vertical tab, form feed, other C0 controls, U+FFFE/U+FFFF) in a text cell, with or without a ${reference}
     beside it (text with a reference is parsed as XML content on its way out)."""
-    c = pick(rng, ["\x01", "\x0b", "\x0c", "\x1f", "\ufffe", "\x08"])
+    c = pick(rng, ["\x01", "\x0b", "\x0c", "\x1f", "\ufffe", "\x08", "\ud800", "\udfff", "\udc00", "\udbff"])
+    if "\ud800" <= c <= "\udfff":
+        f.meta["force_dict"] = True  # half of a surrogate pair: only a dict (say, loaded from JSON text with a \\ud800 escape) can carry it
     vis = [r for r, a in f.walk() if is_visible_q(r)]
     if not vis:
         return None
